@@ -477,7 +477,20 @@ def h_oct_text(ctx):
     kind = ctx.choose("key", ["rsa1024", "rsa", "P-256", "P-384", "P-521", "secp256k1", "Ed25519", "Ed448", "X25519", "X448"])
     jwk = kind_jwk(kind)
     name, text = ctx.choose("encoding", text_encodings(jwk))
-    route = ctx.choose("route", ["OctKey.import_key(bytes)", "OctKey.import_key(str)", "JWKRegistry.import_key(oct)", "str key to jws", "with parameters"])
+    # key files carry comments and notes: an owner's name after an OpenSSH public key, a remark after the END line - not always ASCII
+    deco = ctx.choose("decoration", ["none", "comment j\u00fcrgen@b\u00fcro (UTF-8)", "comment j\u00fcrgen@b\u00fcro (Latin-1)", "leading blank lines", "trailing note (UTF-8)"])
+    if deco.startswith("comment"):
+        cmt = " j\u00fcrgen@b\u00fcro".encode("utf-8" if "UTF-8" in deco else "latin-1")
+        text = (text.rstrip(b"\n") + cmt + b"\n") if not text.startswith(b"-----") else (text + b"# key of" + cmt + b"\n")
+    elif deco == "leading blank lines":
+        text = b"\n\n" + text
+    elif deco.startswith("trailing"):
+        text = text + "Schl\u00fcssel f\u00fcr den Server\n".encode("utf-8")
+    if "Latin-1" in deco:
+        routes = ["OctKey.import_key(bytes)", "JWKRegistry.import_key(oct)", "with parameters"]
+    else:
+        routes = ["OctKey.import_key(bytes)", "OctKey.import_key(str)", "JWKRegistry.import_key(oct)", "str key to jws", "with parameters"]
+    route = ctx.choose("route", routes)
     with warnings.catch_warnings(record=True) as w:
         warnings.simplefilter("always")
         if route == "OctKey.import_key(bytes)":
@@ -497,8 +510,8 @@ def h_oct_text(ctx):
     vs = []
     if r.ok and not flagged:
         vs.append(viol(f"{name.split(' ')[0]} key text imported as an oct secret without a warning ({name.split(' ')[1] if ' ' in name else name}; {route})",
-                       f"{kind} {name}: {text[:40]!r} warnings={[str(x.message) for x in w]}"))
-    return Outcome(f"{'warned' if flagged else ('refused' if not r.ok else 'SILENT')}", vs, nontrivial=(kind, name, route))
+                       f"{kind} {name} [{deco}]: {text[:40]!r} warnings={[str(x.message) for x in w]}"))
+    return Outcome(f"{'warned' if flagged else ('refused' if not r.ok else 'SILENT')}", vs, nontrivial=(kind, name, route, deco))
 
 
 # ------------------------------------------------------------------ E2: one key object used for one operation after another
